@@ -22,7 +22,11 @@
 #include "celeritas/MockTestBase.hh"
 #include "celeritas/SimpleTestBase.hh"
 #include "celeritas/geo/GeoParams.hh"
+#include "celeritas/Units.hh"
+#include "celeritas/field/UniformFieldData.hh"
 #include "celeritas/global/CoreParams.hh"
+#include "celeritas/global/alongstep/AlongStepUniformMscAction.hh"
+#include "celeritas/mat/MaterialParams.hh"
 #include "celeritas/global/CoreState.hh"
 #include "celeritas/global/Stepper.hh"
 #include "celeritas/phys/PDGNumber.hh"
@@ -59,7 +63,8 @@ struct SplitMix64
 //---------------------------------------------------------------------------//
 struct Options
 {
-    std::string problem = "simple";  // simple | mock
+    std::string problem = "simple";  // simple | mock | mockfield
+    double field_tesla = 1.0;  // mockfield: uniform field along z
     size_type max_streams = 1;
     TrackOrder order = TrackOrder::none;
     bool status_checker = false;
@@ -105,6 +110,32 @@ class Fix : public Base
     Options opts_;
 };
 
+/*!
+ * MockTestBase with a uniform magnetic field along-step (AlongStepUniformMscAction, no MSC, no
+ * fluctuations): charged tracks in the near-vacuum world of the three-spheres geometry have an
+ * (almost) unlimited physics step, so the field propagator runs out of substeps and reports
+ * LOOPING; the per-slot `num_looping_steps` counters become non-zero and tracks are abandoned
+ * by the looping thresholds of SimParams (default: 10 looping steps below 250 MeV).
+ */
+class FieldMockFix : public Fix<test::MockTestBase>
+{
+  public:
+    explicit FieldMockFix(Options const& o) : Fix<test::MockTestBase>(o), tesla_(o.field_tesla) {}
+    std::shared_ptr<CoreStepActionInterface const> build_along_step() override
+    {
+        UniformFieldParams fp;
+        fp.field = {0, 0, tesla_ * units::tesla};
+        auto& reg = *this->action_reg();
+        auto result = AlongStepUniformMscAction::from_params(
+            reg.next_id(), *this->material(), *this->particle(), fp, nullptr, false);
+        reg.insert(result);
+        return result;
+    }
+
+  private:
+    double tesla_;
+};
+
 //! A problem: the fixture (owner of the lazily built params) + our own CoreParams
 struct Problem
 {
@@ -134,6 +165,8 @@ inline std::unique_ptr<Problem> make_problem(Options const& o)
         p->fix = std::make_unique<Fix<test::SimpleTestBase>>(o);
     else if (o.problem == "mock")
         p->fix = std::make_unique<Fix<test::MockTestBase>>(o);
+    else if (o.problem == "mockfield")
+        p->fix = std::make_unique<FieldMockFix>(o);
     else
         return nullptr;
     auto& f = *p->fix;
@@ -214,6 +247,17 @@ make_primaries(Problem const& p, std::uint64_t seed, size_type n, EventId ev)
             if (char const* only = std::getenv("H3_ONLY_PARTICLE"))
                 pr.particle_id = par.find(only);
             pr.energy = units::MevEnergy{std::pow(10.0, -2.0 + 2.9 * g.unit())};
+        }
+        if (p.opts.problem == "mockfield" && g.below(4) != 0)
+        {
+            // electron starting in the near-vacuum world, mostly transverse to the field:
+            // it spirals there and the propagator reports looping
+            pr.particle_id = par.find("electron");
+            pr.position = {-60.0 + 40.0 * g.unit(), 20.0 * (2 * g.unit() - 1), 20.0 * (2 * g.unit() - 1)};
+            double ph = 6.283185307179586 * g.unit(), cz = 0.2 * (2 * g.unit() - 1);
+            double st = std::sqrt(1 - cz * cz);
+            pr.direction = {st * std::cos(ph), st * std::sin(ph), cz};
+            pr.energy = units::MevEnergy{std::pow(10.0, -1.3 + 2.0 * g.unit())};
         }
         pr.time = 0;
         pr.event_id = ev;
